@@ -303,10 +303,25 @@ HYST = ["0", "1/2", "1"]
 FSIGN = ["-1", "0", "1", "3", "-1/2", "1/4"]
 
 
-def run_zcross(case):
+ZC_ALPHA = ["-1/10", "1/10", "-1/5", "1/5", "0", "1", "-9/10", "9/10"]
+ZC_HYST = ["1/10", "1/5", "9/10"]        # thresholds whose nearest float lies beyond them
+
+
+def gen_zcross_threshold(run):
+  """Plain Fraction samples lying exactly ON a non-dyadic threshold (on it is not beyond it)."""
+  for n in range(1, run.pick(4, 5) + 1):
+    for s_ in itertools.product(ZC_ALPHA, repeat=n):
+      yield list(s_)
+
+
+def run_zcross_threshold(case):
+  return run_zcross(case, ZC_HYST, True)
+
+
+def run_zcross(case, hysts=None, all_plain=False):
   x = [F(v) for v in case]
   crossings = 0
-  for hs in HYST:
+  for hs in (hysts or HYST):
     h = F(hs)
     for fs in FSIGN:
       f = F(fs)
@@ -323,7 +338,7 @@ def run_zcross(case):
         else:
           exp.append(0)
       # parameter types alternate between the exact class Q and plain int / Fraction
-      plain = (HYST.index(hs) + FSIGN.index(fs)) % 2 == 1
+      plain = all_plain or (HYST.index(hs) + FSIGN.index(fs)) % 2 == 1
       conv = (lambda v: int(v) if F(v).denominator == 1 else F(v)) if plain else Q
       try:
         list(zcross([Q(1), Q(-4), Q(4)], hysteresis=Q(h) + 2, first_sign=-Q(f)))                       # decoy
@@ -616,6 +631,8 @@ KINDS = OrderedDict([
   ("zcross", Kind(gen_pointwise, run_zcross, chunk=200, rule="all sequences x hysteresis x first_sign; non-trivial: a crossing is expected")),
   ("unwrap", Kind(gen_unwrap, run_unwrap, chunk=200, rule="all sequences x (max_delta, step) pairs x parameter types; non-trivial: a jump above max_delta")),
   ("unwrap-fine", Kind(gen_fine, run_unwrap, chunk=100, rule="sequences over a finer 8-value alphabet (length <= 4) x the same configurations")),
+  ("zcross-threshold", Kind(gen_zcross_threshold, run_zcross_threshold, chunk=100,
+                            rule="plain Fraction samples on / off non-dyadic thresholds (1/10, 1/5, 9/10) x first_sign")),
   ("zcross-fine", Kind(gen_fine, run_zcross, chunk=100, rule="sequences over the finer alphabet x hysteresis x first_sign")),
   ("call-routes", Kind(gen_routes, run_routes, chunk=1,
                        rule="each function with every documented parameter set: all positional / all keyword / every split must agree")),
